@@ -15,6 +15,16 @@ pub fn hash_vec_sorted_ok(m: HashMap<String, i32>) -> Vec<String> {
     v
 }
 
+/// two entries may tie on the value: which key is returned depends on the hash order
+pub fn hash_max_by_key_tie(m: &HashMap<String, i32>) -> Option<&String> {
+    m.iter().max_by_key(|(_, v)| **v).map(|(k, _)| k)
+}
+
+/// the maximum VALUE itself is the same whichever tied item supplies it
+pub fn hash_max_value_ok(m: &HashMap<String, i32>) -> Option<i32> {
+    m.values().copied().max()
+}
+
 pub fn hash_early_exit(m: HashMap<u16, i32>) -> Result<i32, u16> {
     let mut total = 0;
     for (k, v) in m {
@@ -103,6 +113,37 @@ pub fn index_guarded_ok(v: &[i32]) -> i32 {
     let mut s = 0;
     while i < v.len() {
         s ^= v[i];
+        i += 1;
+    }
+    s
+}
+
+/// the guard speaks about another container than the one indexed: must be reported
+pub fn index_guard_other_container(a: &[i32], b: &[i32]) -> i32 {
+    let mut i = 0;
+    let mut s = 0;
+    while i < a.len() {
+        s ^= b[i];
+        i += 1;
+    }
+    s
+}
+
+pub fn vec_index_guard_other_container(a: &Vec<i32>, b: &Vec<i32>) -> i32 {
+    let mut i = 0;
+    let mut s = 0;
+    while i < a.len() {
+        s ^= b[i];
+        i += 1;
+    }
+    s
+}
+
+pub fn vec_index_guarded_ok(a: &Vec<i32>) -> i32 {
+    let mut i = 0;
+    let mut s = 0;
+    while i < a.len() {
+        s ^= a[i];
         i += 1;
     }
     s
@@ -358,4 +399,20 @@ pub fn error_dropped(ys: &[i32]) -> Vec<u16> {
 /// clean twin: the refusal is propagated
 pub fn error_propagated(ys: &[i32]) -> Result<Vec<u16>, String> {
     ys.iter().map(|y| fallible_year(*y)).collect()
+}
+
+// ---------------------------------------------------------------- C13 controls (matched text compared case-sensitively)
+pub struct TextNode<'a>(pub &'a str);
+impl<'a> TextNode<'a> {
+    pub fn as_str(&self) -> &'a str {
+        self.0
+    }
+}
+
+pub fn keyword_test_case_sensitive(n: &TextNode) -> bool {
+    n.as_str().starts_with("UNSPLIT")
+}
+
+pub fn keyword_test_folded_ok(n: &TextNode) -> bool {
+    n.as_str().to_uppercase().starts_with("UNSPLIT") || n.as_str().eq_ignore_ascii_case("unsplit") || n.as_str().starts_with('#')
 }
